@@ -237,9 +237,24 @@ def plan(tier, seed):
                 q2.define("white", "(+ %s e)" % rat(sum(T[r])))
                 q2.add("(or (> %s %s) (> %s %s))" % (absv("(- white 1.0)"), rat(TOL), absv("(- back v%d)" % r), rat(TOL)))
                 out.append(q2.run(cross=False))
+        import struct
+        fb = lambda v: "%x" % struct.unpack("<I", struct.pack("<f", float(v)))[0]
         for q in out:
             if q["status"] == "sat":
-                q["replay"] = {"reproduced": None, "detail": "real-valued glue model; see the W/K lemma replays"}
+                m = glue.parse_model(q.get("model", ""))
+                nm = q["name"].split("-")
+                inv = {v: k for k, v in CP_NAMES.items()}
+                i, o = inv.get(nm[1]), inv.get(nm[2])
+                cands = []
+                if all(("v%d" % j) in m for j in range(3)):
+                    cands.append([m["v0"], m["v1"], m["v2"]])
+                cands += [[1, 1, 1], [1, 0, 0], [0, 1, 0], [0, 0, 1], [2, 2, 2], [F(1, 4), F(1, 2), F(3, 4)]]
+                rep = None
+                for c in cands:
+                    rep = native.replay_native(ctx, "prim", [i, o] + [fb(x) for x in c], both_profiles=False)
+                    if rep.get("reproduced"):
+                        break
+                q["replay"] = rep
         return out
     p.late = late
     p.glue = [g]
